@@ -144,7 +144,17 @@ func checkC14(c CaseC14, info *Info) *Failure {
 		"x2j-wrapper.DocToMap":     func() (map[string]interface{}, error) { return x2jw.DocToMap(string(doc), true) },
 		"x2j-wrapper.ByteDocToMap": func() (map[string]interface{}, error) { return x2jw.ByteDocToMap(doc, true) },
 		"x2j-wrapper.ToMap":        func() (map[string]interface{}, error) { return x2jw.ToMap(bytes.NewReader(doc), true) },
-		"NewMapXmlReader":          func() (map[string]interface{}, error) { return mxj.NewMapXmlReader(bytes.NewReader(doc), true) },
+		"x2j-wrapper.ToMap (no io.ByteReader)": func() (map[string]interface{}, error) {
+			return x2jw.ToMap(plainReader{bytes.NewReader(doc)}, true)
+		},
+		"NewMapXmlReader": func() (map[string]interface{}, error) { return mxj.NewMapXmlReader(bytes.NewReader(doc), true) },
+		"NewMapXmlReader (no io.ByteReader)": func() (map[string]interface{}, error) {
+			return mxj.NewMapXmlReader(plainReader{bytes.NewReader(doc)}, true)
+		},
+		"NewMapXmlReaderRaw": func() (map[string]interface{}, error) {
+			m, _, err := mxj.NewMapXmlReaderRaw(plainReader{bytes.NewReader(doc)}, true)
+			return m, err
+		},
 	} {
 		wm, werr := f()
 		if werr != nil || !valEqual(wm, map[string]interface{}(cm)) {
